@@ -4,8 +4,8 @@ Takes the text of a real /repo source file and a table
     { function_name : { loop_ordinal : clauses_text } }
 and returns the same text with `clauses_text` inserted *after the closing parenthesis of
 the loop header* of the ordinal-th loop (in source order, counting `for`, `while`, `do`)
-of that function.  For `do { } while (c);` loops the clauses go after the trailing
-`while (c)`, which is where CBMC expects them.
+of that function.  For `do { } while (c);` loops the clauses go right after the `do`
+keyword, which is where CBMC 6.11 expects them.
 
 Nothing else is changed; in particular no newline is inserted, so line numbers in CBMC's
 source locations are those of the real file.  `strip()` removes every
@@ -146,9 +146,10 @@ def loops_of(src, fname):
             w = body_end + 1
             if toks[w][1] != 'while' or toks[w + 1][1] != '(':
                 raise AnnotateError('%s: do without trailing while' % fname)
-            close = _match(toks, w + 1, '(', ')')
+            _match(toks, w + 1, '(', ')')
             tails.add(w)
-            loops.append((s, toks[close][3]))
+            # CBMC 6.11 wants do-while clauses right after the `do` keyword
+            loops.append((s, e))
         k += 1
     loops.sort()
     return [ins for _, ins in loops]
